@@ -2,7 +2,7 @@
 from harness.common import Report, import_hpl, rng, tier
 from harness.rewrite_driver import Recorder, corrupt_first, derived_pass, family_texts, parse_inputs
 
-FAMILIES_QUICK = ['num1w', 'bool1w', 'funs', 'incl', 'quants', 'slots', 'cmpbool', 'num2', 'bool2', 'cmp11', 'cancel', 'resolve', 'lincmp', 'powpow']
+FAMILIES_QUICK = ['num1w', 'bool1w', 'funs', 'incl', 'quants', 'slots', 'cmpbool', 'num2', 'bool2', 'cmp11', 'cancel', 'resolve', 'lincmp', 'powpow', 'shared']
 FAMILIES_THOROUGH = FAMILIES_QUICK + ['num22', 'bool22', 'alias']
 
 
